@@ -274,6 +274,10 @@ def run(ck, ctx):
     R01.ready_want(ck, ctx)
     from . import C19 as R19
     R19.tasks_run(ck, ctx)
+    # a generator input that was learned from its depfile and has since been deleted makes the manifest out of date (regenerate),
+    # it does not abort the invocation before the generator could run
+    from . import dirty as D
+    D.files_missing(ck, ctx, rule="out-of-date")
 
 
 def run_config(ck, ctx):
